@@ -88,10 +88,12 @@ class C05(Spec):
         ucases = ["U 200 4194304 w6162,e,w6364", "U 200 4194304 i10,i255,i100,i0,i-7,i2147483647,i-2147483648",
                   "U 200 4194304 a616263,l78797a,l6c6974,c41,b1,b0,u18446744073709551615,u0,u1000",
                   "U 200 4194304 w6162,f,w6364,f,f,e,f", "U 404 4194304 e,e,f,e", "U 200 4194304 l,l,a",
+                  # the stream object moved with the head / an unflushed chunk still in its buffer
+                  "U 200 4194304 m,w6162636465,f,w%s" % ("66" * 600), "U 200 4194304 w%s,m,w%s" % ("67" * 20, "68" * 1000), "U 200 4194304 w6162,f,m,w6364,m,m",
                   # a chunk that does not fit the response buffer: the handler must get an error, nothing cut short may go out
                   "U 200 600 w%s,f,w%s,f" % ("61" * 100, "62" * 1000), "U 200 600 w%s,f" % ("63" * 700)]
         def item():
-            k = rng.choice("wwwleliiucbaf")
+            k = rng.choice("wwwleliiucbafm")
             data = bytes(rng.choice(b"abcxyz019 ") for _ in range(rng.choice([0, 1, 2, 9, 10, 15, 16, 17, 255, 256, 1000])))
             if k in "wl":
                 return k + pv.hexs(data).replace("-", "")
